@@ -7,10 +7,12 @@ from vflib.core import VERIF
 
 class CubeQuery(Query):
     def __init__(self, name, unit, cube, **kw):
-        super().__init__(name, unit.srcs, unit.defines, stl='model', rt=('rt_cbmc.c', 'rt_model.c', 'cube.c') + tuple(unit.extra_rt),
+        super().__init__(name, unit.srcs, unit.defines, stl='model', rt=('rt_cbmc.c', 'rt_main.c', 'rt_model.c', 'cube.c') + tuple(unit.extra_rt),
                          cbmc_defines=['CUBE=' + ','.join(str(c) for c in cube)] + list(unit.cbmc_defines), **kw)
         self.unit = unit
         self.cube = cube
+        self.native_repo_srcs = list(unit.repo_srcs)
+        self.native_defines = [d for d in unit.defines if d.startswith('VF_') is False and False]
 
 
 class Unit:
